@@ -8,6 +8,7 @@ package main
 // arbitrary further traffic.
 
 import (
+	"fmt"
 	"sort"
 	"time"
 )
@@ -157,6 +158,48 @@ func bulkScript(n int) []scriptStep {
 		opStep(&Op{Kind: "SeekSnap", Name: sS0, Name2: "projects/p/snapshots/n0"}),
 		pullStep(sS0, 1000),
 		ackLeased(sS0, "ModAck", 0, false), pullStep(sS0, 1000))
+	return s
+}
+
+// manyScript: more resources than the largest page (the server caps a page at 100): 103
+// topics, 102 subscriptions of one topic, 103 snapshots, then every List walked with page
+// sizes above the cap (101, 1000), at it (100) and below it, following the page tokens
+func manyScript() []scriptStep {
+	s := []scriptStep{opStep(&Op{Kind: "CreateTopic", Name: sT0})}
+	for i := 0; i < 102; i++ {
+		s = append(s, opStep(&Op{Kind: "CreateTopic", Name: fmt.Sprintf("projects/p/topics/m%03d", i)}))
+	}
+	for i := 0; i < 102; i++ {
+		s = append(s, subStep(&SubReq{Name: fmt.Sprintf("projects/p/subscriptions/m%03d", i), Topic: sT0}))
+	}
+	for i := 0; i < 103; i++ {
+		s = append(s, opStep(&Op{Kind: "CreateSnap", Name: fmt.Sprintf("projects/p/snapshots/m%03d", i), Name2: "projects/p/subscriptions/m000"}))
+	}
+	walk := func(kind string, size int32, pages int) {
+		for i := 0; i < pages; i++ {
+			first := i == 0
+			s = append(s, func(g *Gen, d *Dump, vnow int64) Action {
+				op := &Op{Kind: kind, Project: "projects/p", Size: size}
+				if kind == "ListTopicSubs" {
+					op = &Op{Kind: kind, Name: sT0, Size: size}
+				}
+				if !first {
+					key := kind + op.Project
+					if kind == "ListTopicSubs" {
+						key = kind + op.Name
+					}
+					op.Tok = g.lastTok[key]
+				}
+				return Action{Op: op}
+			})
+		}
+	}
+	for _, kind := range []string{"ListSnaps", "ListTopics", "ListSubs", "ListTopicSubs"} {
+		walk(kind, 101, 3)
+		walk(kind, 1000, 2)
+		walk(kind, 100, 2)
+		walk(kind, 60, 3)
+	}
 	return s
 }
 
